@@ -18,7 +18,7 @@ for p in $props; do
     if ! (cd "$scratch" && go build ./... 2>/dev/null); then echo "NOBUILD $p $(basename $patch)"; rm -rf "$scratch"; fail=1; continue; fi
     ev=$(mktemp -d /tmp/pvselfv.XXXXXX)
     mkdir -p $ev/ledger; cp "$V/props.json" "$V/known_findings.jsonl" $ev/; cp "$V/ledger/$p.json" $ev/ledger/; cp -r "$V/replay" $ev/
-    out=$(VERIF_NO_REPLAY=${SELFTEST_NO_REPLAY:-1} "$BIN" -repo "$scratch" -stdlib "$V/stdlib" -verif "$ev" -prop $p -tier quick 2>&1); rc=$?
+    out=$(VERIF_NO_REPLAY=${SELFTEST_NO_REPLAY-} "$BIN" -repo "$scratch" -stdlib "$V/stdlib" -verif "$ev" -prop $p -tier quick 2>&1); rc=$?
     if [ $rc -eq 1 ] && echo "$out" | grep -q '^VIOLATION'; then
       echo "CAUGHT $p $(basename $patch): $(echo "$out" | grep '^VIOLATION' | head -1 | sed 's/.*# //')"
     else
